@@ -886,6 +886,12 @@ fn size_case(cx: &ProbeCtx, hist: &[OpId], i: usize, entry: SizeEntry, n: usize,
             }
         }
     }
+    // "never leave the target ... changed after a failure": a refused reserve / shrink also keeps the
+    // target's storage (kind, capacity, share of its buffer), not only its text (round 9, C06-r9a).
+    // Native engine only: the hosted passes keep the oracle set they were validated with.
+    if class != "ok" && !cfg!(miri) && !matches!(entry, SizeEntry::ExtendHint(_) | SizeEntry::ExtendUpper(_)) && (b.kind != a.kind || b.cap != a.cap || b.rc != a.rc) {
+        out.push(Viol { prop: "C06", oracle: "storage-changed-after-failure", detail: format!("{desc}: refused, and the target went from {:?} cap {} rc {} to {:?} cap {} rc {}", a.kind, a.cap, a.rc, b.kind, b.cap, b.rc) });
+    }
     cx.stats.class(format!("{entry:?}/{tk}/{class}").replace(|c: char| c.is_ascii_digit(), "#"));
     cx.stats.sample(|| format!("{:?} then {desc} -> {class}", prof.render(hist)));
     others_unchanged(&pre, &p, Some(i), "C06", &desc, &mut out);
